@@ -52,7 +52,8 @@ let () =
     Buffer.add_string b (" lshape=" ^ c_lab.scv_set.sd_shape);
     List.iteri (fun p _ ->
         let pn = nat_of_int p in
-        match s_validation c_in pn, s_validation c_lab pn, s_training c_in pn, s_training c_lab pn with
+        (* training(i): trainingFoldIndices through detail::complement as written (sort + std::set_difference, C12Loops.v) *)
+        match s_validation c_in pn, s_validation c_lab pn, s_training_sd c_in pn, s_training_sd c_lab pn with
         | Some vi, Some vl, Some ti, Some tl ->
           Buffer.add_string b (Printf.sprintf " val%d=%s train%d=%s vshape%d=%s vlshape%d=%s tshape%d=%s tlshape%d=%s"
                                  p (dump_data vi.sd_data vl.sd_data) p (dump_data ti.sd_data tl.sd_data)
@@ -66,7 +67,9 @@ let () =
     let lshape = Printf.sprintf "(%d)" (k + 3) in
     let xi = { sd_shape = shape; sd_data = x.inp } and xl = { sd_shape = lshape; sd_data = x.lab } in
     if not (extra_valid && req_valid req x.inp && req_valid req x.lab) then " INVALIDCHOICE" else
-    match scv_create O req xi, scv_create O req xl with
+    (* createCVIndexed / FullyIndexed / SameSizeBalanced / IID through the construction loop as written (C12Loops.v:
+       batchElements / validationSetStart bookkeeping, subBatch through the DataView); C12_construction_loop: = cv_create *)
+    match scv_create_loop O req xi, scv_create_loop O req xl with
     | Some ci, Some cl -> dump_scv r ci cl
     | _ -> raise Reject in
   (* ---------------- sharing stream (C03Heap.v): two heaps (inputs, labels) driven in lock-step, 8 handles:
